@@ -1,0 +1,33 @@
+//! Verification hooks for osu!taiko internals (`--cfg rosu_pp_verif`).
+//!
+//! Wrappers only; no behaviour is added or changed.
+
+use rosu_map::section::general::GameMode;
+
+use crate::{model::mode::ConvertError, Beatmap, Difficulty};
+
+use super::{convert, difficulty::DifficultyValues};
+
+/// The per-object strains of the stamina skill, i.e. what
+/// `Stamina::count_top_weighted_strains` sums over, after processing the map
+/// exactly like [`Taiko::difficulty`](crate::taiko::Taiko) does.
+pub fn stamina_object_strains(
+    difficulty: &Difficulty,
+    map: &Beatmap,
+) -> Result<Vec<f64>, ConvertError> {
+    let mut map = map.convert_ref(GameMode::Taiko, difficulty.get_mods())?;
+
+    if let Some(seed) = difficulty.get_mods().random_seed() {
+        convert::apply_random_to_beatmap(map.to_mut(), seed);
+    }
+
+    let great_hit_window = map
+        .attributes()
+        .difficulty(difficulty)
+        .hit_windows()
+        .od_great;
+
+    let values = DifficultyValues::calculate(difficulty, &map, great_hit_window);
+
+    Ok(values.skills.stamina.verif_object_strains().to_vec())
+}
